@@ -18,10 +18,11 @@ Fixpoint wmatch (ps:list piece) (s:string) : Prop :=
 
 Definition exh : ref := Ref KAttrErr [PcLit "<analysis fuel exhausted>"].
 
-Definition noneed {A} (r:res A) : Prop := match r with RNeedV _ | RNeedI _ => False | _ => True end.
+(* neither a wait nor an attribute error: what arithmetic, comparisons, built-in functions, conversions and typing can produce *)
+Definition noneed {A} (r:res A) : Prop := match r with RNeedV _ | RNeedI _ | RCrash CAttr => False | _ => True end.
 
 Lemma noneed_bind A B (ra:res A) (k:A -> res B) : noneed ra -> (forall a, noneed (k a)) -> noneed (bind ra k).
-Proof. destruct ra; simpl; auto. Qed.
+Proof. destruct ra as [| | | |cr]; simpl; auto. Qed.
 Lemma noneed_fold A B (f:res A -> B -> res A) l : (forall acc it, noneed acc -> noneed (f acc it)) -> forall i, noneed i -> noneed (fold_left f l i).
 Proof. intros Hf. induction l; simpl; auto. Qed.
 
@@ -85,10 +86,14 @@ Qed.
 Definition covers (k:refk) (n:string) : Prop :=
   exists r s, In r R /\ r_kind r = k /\ n = qualify c s /\ wmatch (r_name r) s.
 Definition ok {A} (r:res A) : Prop :=
-  match r with RNeedV n => covers KLine n | RNeedI n => covers KInput n | _ => True end.
+  match r with
+  | RNeedV n => covers KLine n | RNeedI n => covers KInput n
+  | RCrash CAttr => exists rf, In rf R /\ r_kind rf = KAttrErr
+  | _ => True
+  end.
 
 Lemma noneed_ok A (r:res A) : noneed r -> ok r.
-Proof. destruct r; simpl; tauto. Qed.
+Proof. destruct r as [| | | |cr]; simpl; try tauto. destruct cr; simpl; tauto. Qed.
 Lemma ok_bind A B (ra:res A) (k:A -> res B) : ok ra -> (forall a, ra = RVal a -> ok (k a)) -> ok (bind ra k).
 Proof. destruct ra; simpl; auto. Qed.
 Lemma ok_fold A B (f:res A -> B -> res A) l : (forall acc it, ok acc -> ok (f acc it)) -> forall i, ok i -> ok (fold_left f l i).
@@ -131,6 +136,7 @@ Ltac st IHe IHx :=
   match goal with
   | H : ok ?x |- ok ?x => exact H
   | |- ok (RVal _) => exact I
+  | Hi : incl _ R |- ok (RCrash CAttr) => eexists; split; [apply Hi; left; reflexivity|reflexivity]
   | |- ok (RCrash _) => exact I
   | |- ok RUnimpl => exact I
   | |- ok (bind _ _) => apply ok_bind; [|intros ? _]
@@ -213,11 +219,13 @@ Proof.
 Qed.
 End S.
 
-(** every name a line can wait for was collected, with its literal skeleton, from a read node of the line *)
+(** every name a line can wait for was collected, with its literal skeleton, from a read node of the line;
+    and an attribute error can only come from a node the analysis flagged (KAttrErr, which names_ok never accepts) *)
 Definition waits_collected (c:ctx) (vi:list string) (fuel:nat) (l:line) : Prop :=
   match line_value c fuel l with
   | RNeedV n => covers c (line_refs vi l) KLine n
   | RNeedI n => covers c (line_refs vi l) KInput n
+  | RCrash CAttr => exists rf, In rf (line_refs vi l) /\ r_kind rf = KAttrErr       (* an attribute error comes from a node the analysis flagged *)
   | _ => True
   end.
 
@@ -228,7 +236,7 @@ Proof.
   pose proof (proj2 (sound c vi (line_refs vi l) Hc Ht fuel) 200%nat [] (l_body l) [] (incl_refl _)) as H.
   destruct (exec c fuel (l_body l) []) as [sg| | | |]; simpl in *; try exact H.
   pose proof (typed_value_noneed (l_type l) (match snd sg with SigReturn v => v | _ => PNone end)) as Hn.
-  destruct (typed_value _ _); simpl in *; tauto.
+  destruct (typed_value _ _) as [| | | |cr]; simpl in *; try tauto. destruct cr; simpl in *; tauto.
 Qed.
 
 (* the analysis did not run out of its own fuel: decidable, checked per catalogue inside the kernel *)
@@ -266,3 +274,12 @@ Proof.
   apply waits_are_collected; [intros; exact I|]. apply not_exh_sound. vm_compute. reflexivity.
 Qed.
 
+(* non-vacuity of the attribute-error clause: `self.not_implemented()` written on the form instead of the line *)
+Example attr_example :
+  let l := Line "t" (TFloat 2) true [SIf (ERead RI [NLit "g"]) [SExpr (EAttrErr "self.not_implemented")] []; SReturn (EConst (PNum 0))] in
+  let c := Ctx [] "f" None [] [("f.g", PBool true)] ["f"] (fun _ _ => RCrash COther) in
+  line_value c 50 l = RCrash CAttr /\ waits_collected c [] 50 l.
+Proof.
+  intros l c. split; [vm_compute; reflexivity|].
+  apply waits_are_collected; [intros; exact I|]. apply not_exh_sound. vm_compute. reflexivity.
+Qed.
